@@ -60,3 +60,7 @@ with open(os.path.join(V, 'seeded', 'RESULTS.md'), 'w') as f:
         for p in ([own] if own in caught else []) + [c for c in caught if c != own]:
             keys += res[p]['keys'][:2]
         f.write('| %s | %s | %s | %s | %s |\n' % (sid, what, 'caught' if own in caught else ('not claimed' if own not in claimed else 'MISSED'), ', '.join(caught) or '-', '<br>'.join(keys[:4])))
+# the per-worker cargo target directories are a cache for this run only (several GB each): drop them
+import glob, shutil
+for d in glob.glob('/verif/.work/target-w*'):
+    shutil.rmtree(d, ignore_errors=True)
